@@ -264,6 +264,7 @@ structure St where
   nScopes : Nat := 0
   events : Array Ev := #[]        -- the declaration-map events in program order (for the evidence / theorem tie)
   memberFixed : Bool := false     -- model of the repaired MemberExpr branch (proposed/C35-member-flag.diff), chosen by the check
+  boundsChecked : Bool := false   -- model of proposed/C35-children-bounds.diff: `children[N]` / `children.back()` became `getChild(..)`
 
 abbrev M := StateT St (Except Err)
 
@@ -292,11 +293,15 @@ def getChild (n : NodeRec) (c : Nat) : M (Option Nat) :=
   | some ch => pure ch
   | none => failM (.internal "getChild")
 
+/-- an access past `children`: undefined behaviour in the current code, `getChild`'s InternalError in the repaired code -/
+def oob (what : String) : M α := do
+  if (← get).boundsChecked then failM (.internal "getChild") else failM (.ub what)
+
 /-- `children[c]` (no bounds check in the C++) -/
 def childAt (n : NodeRec) (c : Nat) : M (Option Nat) :=
   match n.children[c]? with
   | some ch => pure ch
-  | none => failM (.ub s!"children[{c}] of {n.nodeType}")
+  | none => oob s!"children[{c}] of {n.nodeType}"
 
 /-- dereference of a child pointer -/
 def deref (what : String) : Option Nat → M Nat
@@ -698,7 +703,7 @@ def createTokens (fuel : Nat) (i : Nat) : M (Option Nat) :=
     let backChild : M Nat := do
       match self.children.getLast? with
       | some c => deref "children.back()" c
-      | none => failM (.ub s!"children.back() of {nt}")
+      | none => oob s!"children.back() of {nt}"
     if unsupportedKinds.contains nt then failM (.unsupported nt)
     if nt == "ArraySubscriptExpr" then
       let array ← createTokens fuel (← child0)
@@ -916,7 +921,7 @@ def createTokens (fuel : Nat) (i : Nat) : M (Option Nat) :=
       return none
     if nt == "IfStmt" then
       let k := self.children.length
-      if k < 2 then failM (.ub "children[size-2] in IfStmt")
+      if k < 2 then oob "children[size-2] in IfStmt"
       let (cond, thenC, elseC) ← (do
         if k == 2 then pure (← childAt self 0, ← childAt self 1, (none : Option (Option Nat)))
         else pure (← childAt self (k - 3), ← childAt self (k - 2), some (← childAt self (k - 1))))
@@ -1006,7 +1011,7 @@ def createTokens (fuel : Nat) (i : Nat) : M (Option Nat) :=
       return some t1
     if nt == "SwitchStmt" then
       let k := self.children.length
-      if k < 2 then failM (.ub "children[size-2] in SwitchStmt")
+      if k < 2 then oob "children[size-2] in SwitchStmt"
       let t1 ← addtoken self (lit "switch")
       let p1 ← addtoken self ['(']
       let e ← createTokens fuel (← deref "cond of SwitchStmt" (← childAt self (k - 2)))
@@ -1048,7 +1053,7 @@ def createTokens (fuel : Nat) (i : Nat) : M (Option Nat) :=
       return some p1
     if nt == "WhileStmt" then
       let k := self.children.length
-      if k < 2 then failM (.ub "children[size-2] in WhileStmt")
+      if k < 2 then oob "children[size-2] in WhileStmt"
       let wt ← addtoken self (lit "while")
       let p1 ← addtoken self ['(']
       op1 p1 (some wt)
@@ -1190,8 +1195,9 @@ def sizeofCleared (live : List (Nat × Tok)) : List Nat := sizeofScan false live
 def isBracket (s : Str) : Bool := s == ['('] || s == [')'] || s == ['['] || s == [']'] || s == ['{'] || s == ['}']
 
 /-- `parseClangAstDump` up to and including the link validation; `file0` = the file the TokenList already knows -/
-def importDump (file0 : Str) (text : Str) (sizeofFixed : Bool := false) (memberFixed : Bool := false) : Except Err Imported :=
-  match (lineLoop (splitLines text) []).run { files := [file0], memberFixed := memberFixed } with
+def importDump (file0 : Str) (text : Str) (sizeofFixed : Bool := false) (memberFixed : Bool := false) (boundsChecked : Bool := false) :
+    Except Err Imported :=
+  match (lineLoop (splitLines text) []).run { files := [file0], memberFixed := memberFixed, boundsChecked := boundsChecked } with
   | .error e => .error e
   | .ok (_, st) =>
     -- "Validation": every bracket token has a link
